@@ -127,3 +127,12 @@ Definition all_case := (kind * list script * sobj * rs_obs)%type.
 
 Definition check_all (c : all_case) : bool :=
   match c with (k, ss, o, ob) => rs_obs_eqb (rs_project (slint_all k ss o)) ob end.
+
+(* a real lint abstracted by direct calls: only the result is observable *)
+Definition real_case := (kind * script * sobj * obs)%type.
+Definition check_real (c : real_case) : bool :=
+  match c with (k, s, o, ob) => obs_eqb (obs_of (fst (srun k s o))) ob end.
+
+Definition window_case := (Z * Z * Z * bool)%type.
+Definition check_window (c : window_case) : bool :=
+  match c with (e, i, t, b) => Bool.eqb (check_effective e i t) b end.
